@@ -89,6 +89,7 @@ func runPFB(data []byte, m pfbModel, sch sim.Schedule, tape *sim.Tape, nextBuf f
 	limit := 4*len(data) + 4*len(m.out) + 64
 	calls := 0
 	zeroNil := 0
+	var scratch []byte
 	for {
 		calls++
 		if calls > limit {
@@ -98,7 +99,10 @@ func runPFB(data []byte, m pfbModel, sch sim.Schedule, tape *sim.Tape, nextBuf f
 		if k%2 == 1 {
 			ob.odd = true
 		}
-		buf := make([]byte, k)
+		if cap(scratch) < k {
+			scratch = make([]byte, k)
+		}
+		buf := scratch[:k]
 		n, err := r.Read(buf)
 		ob.fp = (ob.fp ^ uint64(k)<<20 ^ uint64(n+1)) * 1099511628211
 		if explain && len(trace) < 200 {
@@ -266,12 +270,67 @@ func C14() *sim.Check {
 		return out
 	}
 
+	// segments whose length needs the top bit of the 32-bit length field: the
+	// data comes from a virtual source (no 2 GiB buffer), the output is checked
+	// by position
+	hugeCases := []struct {
+		typ byte
+		n   int64
+	}{{1, 1 << 31}, {1, 1<<31 - 1}, {1, 1<<32 - 1}, {2, 1 << 31}}
+	huge := &sim.Batch{Name: "huge-segments", Quick: 1, Thorough: len(hugeCases), Enumerated: true, Serial: true}
+	huge.Run = func(c *sim.RunCtx) *sim.Outcome {
+		hc := hugeCases[c.Index]
+		src := &virtualPFB{typ: hc.typ, n: hc.n}
+		r := pfb.Decode(src)
+		buf := make([]byte, 1<<20)
+		var total int64
+		var termErr error
+		for {
+			n, err := r.Read(buf)
+			c.St.Inc("decoder_reads")
+			for _, i := range []int{0, n / 2, n - 1} {
+				if i < 0 || i >= n {
+					continue
+				}
+				pos := total + int64(i)
+				var want byte
+				if hc.typ == 1 {
+					want = virtualByte(pos)
+				} else {
+					b := virtualByte(pos / 2)
+					want = hexDigits[b>>4]
+					if pos%2 == 1 {
+						want = hexDigits[b&15]
+					}
+				}
+				if buf[i] != want {
+					return &sim.Outcome{Class: "wrong-output", Key: "pfb:huge:wrong-output", Detail: fmt.Sprintf("segment of %d bytes (type %d): output byte %d is %#x, want %#x", hc.n, hc.typ, pos, buf[i], want)}
+				}
+			}
+			total += int64(n)
+			if err != nil {
+				termErr = err
+				break
+			}
+		}
+		wantTotal := hc.n
+		if hc.typ == 2 {
+			wantTotal = 2 * hc.n
+		}
+		c.St.Inc("huge_segments_decoded")
+		c.St.Case(uint64(c.Index) | 5<<40)
+		if termErr != io.EOF || total != wantTotal {
+			return &sim.Outcome{Class: "wrong-terminal", Key: "pfb:huge", Detail: fmt.Sprintf("well-formed stream with one segment of %d bytes (type %d): %d output bytes, ended with %v; want %d bytes and io.EOF", hc.n, hc.typ, total, termErr, wantTotal)}
+		}
+		return nil
+	}
+
 	return &sim.Check{
 		Prop: "C14", Harness: "h_pfb", Level: "exploration",
 		Rule:        "streams: a segment list (types 1/2, lengths 0..300, optional end marker, trailing garbage, or one anomaly: short binary/text segment, bad header, partial header) is drawn from the tape together with an underlying delivery schedule and a caller buffer-size sequence; every Read of pfb.Decode is checked against a 30-line reference model. A case is non-trivial when the stream has a non-empty binary segment and at least one odd caller buffer size was used; distinct = distinct (stream bytes, schedule, buffer sequence) hash. headers: all 65536 first-two-byte values x {one read, 1-byte reads}, each counted once.",
 		Assume:      []string{"the reference model in harness/h_pfb.go is the specification of PFB framing", "underlying readers never return (0, nil) for a non-empty buffer"},
 		RealStub:    map[string]any{"real": []string{"pfb.Decode (unmodified /repo code)", "io.ReadFull"}, "stub": []string{"underlying reader (SimReader)", "caller (buffer-size sequence)"}},
-		Batches:     []*sim.Batch{headers, random},
+		Batches:     []*sim.Batch{headers, huge, random},
 		SimTimeUnit: "Read calls: caller -> decoder and decoder -> simulated source", SimTimeCounters: []string{"src_reads", "decoder_reads"},
 		Probes: []string{"probe_zero_length_segment", "probe_marker_followed_by_garbage", "probe_binary_with_odd_buffer", "anomaly_1", "anomaly_2", "anomaly_3", "anomaly_4"},
 	}
@@ -283,4 +342,46 @@ func u32bytes(v []uint32) []byte {
 		b = append(b, byte(x), byte(x>>8), byte(x>>16), byte(x>>24))
 	}
 	return b
+}
+
+// virtualPFB is a PFB stream with one segment of n bytes followed by the end
+// marker; the segment's bytes are a function of their position.
+type virtualPFB struct {
+	typ byte
+	n   int64
+	pos int64 // position in the whole stream
+}
+
+func virtualByte(i int64) byte { return byte(i%251) ^ byte(i>>20) }
+
+func (v *virtualPFB) Read(p []byte) (int, error) {
+	total := 6 + v.n + 2
+	if v.pos >= total {
+		return 0, io.EOF
+	}
+	n := 0
+	for n < len(p) && v.pos < total {
+		switch {
+		case v.pos < 6:
+			h := [6]byte{0x80, v.typ, byte(v.n), byte(v.n >> 8), byte(v.n >> 16), byte(v.n >> 24)}
+			p[n] = h[v.pos]
+			n++
+			v.pos++
+		case v.pos < 6+v.n:
+			// fill a run of data bytes
+			run := min(int64(len(p)-n), 6+v.n-v.pos)
+			base := v.pos - 6
+			for k := int64(0); k < run; k++ {
+				p[n+int(k)] = virtualByte(base + k)
+			}
+			n += int(run)
+			v.pos += run
+		default:
+			m := [2]byte{0x80, 3}
+			p[n] = m[v.pos-6-v.n]
+			n++
+			v.pos++
+		}
+	}
+	return n, nil
 }
